@@ -72,3 +72,5 @@ class MQTTTriggerDecorator(TriggerDecorator, ExpressionDecorator, AutoKwargsDeco
         await super().stop()
         if self.remove_listener_callback:
             self.remove_listener_callback()
+            # (stop() can be called again, eg by the roll-back of a start that failed part-way)
+            self.remove_listener_callback = None
